@@ -11,6 +11,13 @@ import h2.exceptions
 import h2.settings
 import hpack
 from hpack import HeaderTuple, NeverIndexedHeaderTuple
+import copyreg
+
+# hpack's header tuples take their two fields as separate constructor arguments, which the default pickling of a tuple subclass
+# does not know: a pickled copy comes back as ((name, value),). The explorer copies states by pickling them, so a library
+# that keeps such tuples inside a connection must get them back intact.
+copyreg.pickle(HeaderTuple, lambda t: (HeaderTuple, tuple(t)))
+copyreg.pickle(NeverIndexedHeaderTuple, lambda t: (NeverIndexedHeaderTuple, tuple(t)))
 
 H2Error = h2.exceptions.H2Error
 ProtocolError = h2.exceptions.ProtocolError
